@@ -12,6 +12,9 @@ S2  scenarios: the LEAD histories, TLC random simulation of WarmUp (demand 0 / 1
 S3  harness/cmd/c11 replays them on the real code through api.Entry under the virtual clock.
 S4  WarmUp_Trace.tla / MemAdaptive_Trace.tla (TLC) judge every recorded decision against the ENVELOPE of the statement
     (verdict) and compare it with the rational transcription (conformance: DRIFT lines, never a verdict).
+The control behaviour is a parameter of the rule in every stage: Reject (the threshold caps the tokens of the window) and
+Throttling (the threshold spaces the admissions: saturating demand paced on the virtual clock, judged by the same envelope
+read as pacing).  S1 also runs the spec-level mutant "a throttling rule reads an empty statistic": WarmAfterSat must fail.
 This is a transcription check with tolerances, not a proof about float arithmetic.
 """
 import json, os, sys
@@ -80,20 +83,21 @@ def classify(c, scn, exp):
 
 
 # ----------------------------------------------------------------------------- TLC configurations
-def wu_cfg(configs, scope, excuse, inv, emit=False):
+def wu_cfg(configs, scope, excuse, inv, emit=False, mut='none'):
     return """SPECIFICATION Spec
 CONSTANTS
   Configs <- %s
+  Mut = "%s"
   SAT = SAT
   InScope <- %s
   ExcuseStuck = %s
 VIEW view
 %s
 CHECK_DEADLOCK FALSE
-%s""" % (configs, scope, 'TRUE' if excuse else 'FALSE', ('INVARIANTS ' + inv) if inv else '', 'ACTION_CONSTRAINT Emit\n' if emit else '')
+%s""" % (configs, mut, scope, 'TRUE' if excuse else 'FALSE', ('INVARIANTS ' + inv) if inv else '', 'ACTION_CONSTRAINT Emit\n' if emit else '')
 
 
-ENVELOPE_INV = 'TypeOK AllowedDefined AllowedInRange AdmittedLeT ColdAfterIdle ColdAfterIdleObs WarmAfterSat NoStarvation'
+ENVELOPE_INV = 'TypeOK AllowedDefined AllowedInRange AdmittedLeT ColdAfterIdle ColdAfterIdleObs WarmAfterSat WarmAfterSatThr NoStarvation'
 
 
 def mem_cfg(maxthr, maxmem):
@@ -109,10 +113,30 @@ CHECK_DEADLOCK FALSE
 
 
 # ----------------------------------------------------------------------------- scenarios
-def from_secs(hist, tr, rng, off=None):
-    """TLC history [new, sec n, sec n, ...] -> driver scenario: the demand of a second arrives at its start"""
-    off = rng.choice([0, 1, 7, 250, 499]) if off is None else off
+QUEUES = [1, 1, 5, 20, 50, 300, 2000, 0]     # MaxQueueingTimeMs of throttling rules (0: saturation cannot be established, E1/E2/E4 only)
+
+
+def from_secs(hist, tr, rng, off=None, q=None):
+    """TLC history [new, sec n, sec n, ...] -> driver scenario: the demand of a second arrives at its start.
+    Throttling rule (cb = 1): n > 1 (or pace=True) is saturating demand DURING the whole second (op pace: one request per
+    millisecond, queueing as the rule allows), burst=True n requests at the start of the second."""
     cfg = hist[0]
+    if cfg.get('cb'):
+        off = rng.choice([0, 0, 1, 7]) if off is None else off
+        q = rng.choice(QUEUES) if q is None else q
+        out = [dict(op='new', tr=tr, kind='warmup', t=1000 + off, tn=cfg['tn'], td=cfg['td'], p=cfg['p'], c=cfg['c'], cb=1, q=q)]
+        for k, o in enumerate(hist[1:]):
+            start = 1000 + off + 1000 * k
+            if k:
+                out.append(dict(op='at', t=start))
+            if o['n'] > 0 and o.get('burst'):
+                out.append(dict(op='burst', n=o['n']))
+            elif o['n'] > 1 or o.get('pace'):
+                out.append(dict(op='pace', until=start + 1000, step=1))
+            elif o['n'] == 1:
+                out.append(dict(op='burst', n=1))
+        return out
+    off = rng.choice([0, 1, 7, 250, 499]) if off is None else off
     out = [dict(op='new', tr=tr, kind='warmup', t=1000 + off, tn=cfg['tn'], td=cfg['td'], p=cfg['p'], c=cfg['c'])]
     first = True
     for o in hist[1:]:
@@ -138,15 +162,28 @@ def random_warmup(c, n, first_tr):
         tn, td = rng.choice(THRESHOLDS)
         p, cf = rng.choice(PERIODS), rng.choice(COLDS)
         T = tn // td
-        if rng.random() < 0.75:
+        thr = rng.random() < 0.3          # the same rule enforced by the throttling checker
+        x = rng.random()
+        if thr and x >= 0.75:
+            # free-running single-token requests (the pacing clauses E1, E2, E4; saturation is never established)
+            s = [dict(op='new', tr=tr, kind='warmup', t=rng.choice([1, 500, 999, 1000, 1234]), tn=tn, td=td, p=p, c=cf, cb=1,
+                      q=rng.choice(QUEUES))]
+            for _ in range(rng.randint(20, 120)):
+                if rng.random() < 0.6:
+                    s.append(dict(op='req', b=1))
+                else:
+                    s.append(dict(op='tick', d=rng.choice([0, 1, 100, 250, 499, 500, 501, 1000, 1000, 2000, rng.randint(0, 1500),
+                                                           1000 * (2 * p + 3)])))
+            scns.append(s)
+        elif x < 0.75:
             # phases, every request in the first half of its second
-            hist = [dict(tn=tn, td=td, p=p, c=cf)]
+            hist = [dict(tn=tn, td=td, p=p, c=cf, cb=1 if thr else 0)]
             for _ in range(rng.randint(2, 4)):
                 kind = rng.choice(['sat', 'sat', 'idle', 'steady', 'rand'])
                 k = rng.choice([1, 2, p + 1, 2 * p + 3, 2 * p + 6])
                 for _ in range(k):
                     nreq = dict(sat=T + 2, idle=0, steady=1, rand=rng.randint(0, T + 2))[kind]
-                    hist.append(dict(n=nreq))
+                    hist.append(dict(n=nreq, pace=True) if kind == 'sat' else dict(n=nreq, burst=True))
             scns.append(from_secs(hist[:60], tr, rng))
         else:
             # free-running: any time, any batch
@@ -170,6 +207,12 @@ def fixed_warmup(first_tr):
                              (10, 1, 2, 3, 12), (3, 1, 5, 2, 5)]:
         hist = [dict(tn=tn, td=td, p=p, c=cf)] + [dict(n=n)] * (2 * p + 8)
         out.append(from_secs(hist, first_tr + len(out), None, off=7))
+    # throttling rules (healthy configurations) under saturating demand for longer than the warm-up: whole and fractional
+    # thresholds, default cold factor, queueing from one polling step to "every request waits"
+    for tn, td, p, cf, q, off in [(10, 1, 2, 3, 20, 0), (4, 1, 1, 2, 1, 7), (5, 1, 3, 0, 2000, 0), (16, 1, 4, 4, 5, 1), (5, 2, 2, 2, 50, 0),
+                                  (3, 1, 2, 3, 10, 7), (10, 1, 5, 3, 300, 0)]:
+        hist = [dict(tn=tn, td=td, p=p, c=cf, cb=1)] + [dict(n=2, pace=True)] * (2 * p + 8)
+        out.append(from_secs(hist, first_tr + len(out), None, off=off, q=q))
     return out
 
 
@@ -183,6 +226,9 @@ def random_mem(c, n, first_tr):
         lw = rng.choice([1, 2, 100, 1000, 4096, 1 << 20])
         hw = lw + rng.choice([1, 2, 3, 7, 10, 100, 1000, 1 << 20])
         s = [dict(op='new', tr=tr, kind='mem', low=low, high=high, lw=lw, hw=hw)]
+        if rng.random() < 0.3:
+            # the same rule enforced by the throttling checker: a probe is one second of saturating demand (paced admissions)
+            s[0].update(cb=1, q=rng.choice([1, 5, 50, 500]))
         cand = [-1, 0, lw - 1, lw, lw + 1, hw - 1, hw, hw + 1, 2 * hw, (lw + hw) // 2] + [rng.randint(lw, hw) for _ in range(6)]
         for _ in range(rng.randint(5, 12)):
             s.append(dict(op='probe', mem=rng.choice(cand), n=low + 2))
@@ -238,7 +284,7 @@ def binding_selftest_warmup(c, tp):
     env, dr = [], []
     for t in traces:
         cfg = t[0]
-        if wu_class(cfg) != 'healthy' or len(env) >= 25 and len(dr) >= 25:
+        if wu_class(cfg) != 'healthy' or cfg.get('cb') or len(env) >= 25 and len(dr) >= 25:
             continue
         T = cfg['tn'] // cfg['td']
         now, cnt, sec = cfg['t'], 0, None
@@ -286,6 +332,38 @@ def binding_selftest_warmup(c, tp):
     c.cov['binding_selftest_warmup'] = ('%d traces with an admission above the threshold: all rejected by the envelope; %d traces with one '
                                         'flipped decision: %d reported as drift from the transcription' % (len(env), len(dr), len(want_dr & (drift | got))))
     c.log('binding self-test (warm-up): ' + c.cov['binding_selftest_warmup'])
+
+
+def binding_selftest_throttle(c, tp, scns):
+    """pacing clause E3: in traces of healthy throttling rules under saturating demand from the first to the last second (longer
+    than the warm-up), delay the last admission that was made to wait by one more spacing 1/T (must be rejected)"""
+    allsat = {s[0]['tr'] for s in scns if s[0].get('cb') and s[0].get('q', 0) > 0 and wu_class(s[0]) == 'healthy'
+              and s[0]['tn'] >= s[0]['td'] and all(o['op'] in ('new', 'at', 'pace') for o in s)
+              and sum(1 for o in s if o['op'] == 'pace') >= 2 * s[0]['p'] + 5}
+    bad = []
+    for t in split_traces(tp):
+        if t[0]['tr'] not in allsat or len(bad) >= 25:
+            continue
+        cand = [i for i, e in enumerate(t) if e['op'] == 'preq' and e['ok'] and e['w'] > 0]
+        if not cand:
+            continue
+        t2 = [dict(e) for e in t]
+        t2[cand[-1]]['w'] += 1000000 * t[0]['td'] // t[0]['tn'] + 10
+        bad.append(t2)
+    for k, t in enumerate(bad):
+        t[0]['tr'] = k + 1
+    cp = os.path.join(c.scratch, 'corrupt-thr.ndjson')
+    write_ndjson(cp, [e for t in bad for e in t])
+    got = set()
+    if bad:
+        mism, consumed, r = c.validate('WarmUp_Trace', cp, sum(len(t) for t in bad))
+        got = {m[0] for m in mism if '"E3' in m[2]}
+    if len(bad) < 4 or got != set(range(1, len(bad) + 1)):
+        c.inconclusive.append('throttling binding self-test failed: %d traces with a delayed admission, %d rejected (E3)' % (len(bad), len(got)))
+        return
+    c.cov['binding_selftest_throttle'] = ('%d traces of throttling warm-up rules under saturating demand with one admission delayed by one more '
+                                          'spacing 1/T after the warm-up: all rejected by the pacing clause E3' % len(bad))
+    c.log('binding self-test (throttling): ' + c.cov['binding_selftest_throttle'])
 
 
 def binding_selftest_mem(c, tp):
@@ -355,6 +433,20 @@ def handle_mismatches(c, drv, scns, mism, tag, module):
             c.violation(what + (' [signature %s]' % key if key else ''), rp)
 
 
+def max_pace_run(s):
+    """longest run of consecutive seconds of saturating (paced) demand in a throttling scenario built by from_secs"""
+    best = cur = 0
+    paced = False
+    for o in s[1:] + [dict(op='at')]:
+        if o['op'] == 'at':             # the start of the next second
+            cur = cur + 1 if paced else 0
+            best = max(best, cur)
+            paced = False
+        elif o['op'] == 'pace':
+            paced = True
+    return best
+
+
 def maximal(hs):
     keys = sorted(json.dumps(x, sort_keys=True)[:-1] for x in hs)
     out = []
@@ -395,11 +487,21 @@ def check(c, tier, replay):
     skip_s1 = bool(os.environ.get('VERIF_SKIP_S1'))         # mutant trials only
     # S1 ---------------------------------------------------------------------------------
     if not skip_s1:
-        r = c.model_check('WarmUp_MC', cfg_text=wu_cfg('MCConfigsBig' if thorough else 'MCConfigs', 'ScopeHealthy', False, ENVELOPE_INV),
+        # both control behaviours: every configuration as a Reject rule and as a Throttling rule
+        r = c.model_check('WarmUp_MC', cfg_text=wu_cfg('MCConfigsBig2' if thorough else 'MCConfigs2', 'ScopeHealthy', False, ENVELOPE_INV),
                           workers=8, timeout=1500)
         if not r.completed:
             c.inconclusive.append('WarmUp.tla: %s violated on a configuration of class Healthy - the classification of the defect '
                                   'classes is incomplete (new lead)' % r.violated)
+        # spec-level mutant: a throttling rule whose calculator reads an empty statistic never drains its tokens - the
+        # warm-up clause must fail (the invariant is not vacuous for throttling rules)
+        r = c.tlc('WarmUp_MC', cfg_text=wu_cfg('MCConfigsThr', 'ScopeHealthy', False, ENVELOPE_INV, mut='nopstat'), workers=8, timeout=600)
+        if r.violated not in ('WarmAfterSat', 'WarmAfterSatThr'):
+            c.inconclusive.append('WarmUp.tla mutant "throttling rule reads an empty statistic": expected WarmAfterSat to fail, got %s'
+                                  % (r.violated or r.error or 'no error'))
+        c.cov['spec_mutant_nopstat'] = 'WarmUp.tla with Mut = "nopstat" on the throttling configurations: %s violated after %d states' % (
+            r.violated, r.distinct)
+        c.log('S1 mutant (throttling rule reads an empty statistic): %s violated, %d distinct states' % (r.violated, r.distinct))
         r = c.model_check('MemAdaptive_MC', cfg_text=mem_cfg(6 if not thorough else 9, 8 if not thorough else 12), workers=8, timeout=1500)
         if not r.completed:
             c.inconclusive.append('MemAdaptive.tla: %s violated' % r.violated)
@@ -436,8 +538,8 @@ def check(c, tier, replay):
             tr += 1
             # one more saturating second at the end makes a wrong (too high) threshold visible as an admission count
             lead_scns.append(from_secs(hh, tr, c.rng, off=7))
-    num = 150 if not thorough else 2500
-    r = c.tlc('WarmUp_MC', cfg_text=wu_cfg('MCConfigsBig', 'ScopeAll', False, '', emit=True), workers=1, timeout=900, count=False,
+    num = 280 if not thorough else 4000          # (half of them throttling rules)
+    r = c.tlc('WarmUp_MC', cfg_text=wu_cfg('MCConfigsBig2', 'ScopeAll', False, '', emit=True), workers=1, timeout=900, count=False,
               args=['-simulate', 'num=%d' % num, '-depth', '40', '-seed', str(c.seed)])
     sim = maximal(r.json_prints())
     if len(sim) < num // 4:
@@ -447,12 +549,12 @@ def check(c, tier, replay):
         tr += 1
         sim_scns.append(from_secs(hh, tr, c.rng))
     c.log('S2: %d lead scenarios, %d TLC-simulated demand histories' % (len(lead_scns), len(sim_scns)))
-    nrand = 250 if not thorough else 4000
+    nrand = 360 if not thorough else 5500          # (30 % throttling rules)
     rand_scns = fixed_warmup(tr + 1)
     tr += len(rand_scns)
     rand_scns += random_warmup(c, nrand, tr + 1)
     tr += nrand
-    nmem = 300 if not thorough else 5000
+    nmem = 400 if not thorough else 6500           # (30 % throttling rules)
     mem_scns = random_mem(c, nmem, tr + 1)
     tr += nmem
     # S3 + S4 ----------------------------------------------------------------------------
@@ -473,6 +575,7 @@ def check(c, tier, replay):
                                           '(first: trace %d %s)' % (len(quiet), quiet[0], part[[s[0]['tr'] for s in part].index(quiet[0])][0]))
             if tag == 'rand' and i == 0:
                 binding_selftest_warmup(c, tp)
+                binding_selftest_throttle(c, tp, part)
             if tag == 'mem' and i == 0:
                 binding_selftest_mem(c, tp)
             handle_mismatches(c, drv, part, mism, tag, module)
@@ -480,8 +583,8 @@ def check(c, tier, replay):
     def nontrivial(s):
         if s[0]['kind'] == 'mem':
             return sum(1 for o in s if o['op'] == 'probe' and s[0]['lw'] < o['mem'] < s[0]['hw']) >= 2
-        secs = sum(1 for o in s if o['op'] == 'tick')
-        return secs >= s[0]['p'] + 2 and any(o['op'] in ('burst', 'req') for o in s)
+        secs = sum(1 for o in s if o['op'] in ('tick', 'at'))
+        return secs >= s[0]['p'] + 2 and any(o['op'] in ('burst', 'req', 'pace') for o in s)
     c.cov['distinct_nontrivial'] = len({json.dumps(s[1:] + [{k: v for k, v in s[0].items() if k != 'tr'}], sort_keys=True)
                                         for s in allwu + mem_scns if nontrivial(s)})
     c.cov['rule'] = ('scenarios = TLC leads (%d) + TLC random simulation of WarmUp (%d) + seeded random warm-up histories (%d) + seeded random '
@@ -489,6 +592,11 @@ def check(c, tier, replay):
                      'than the warm-up period + 2 s of virtual time, or (memory-adaptive) probes at least two readings strictly between the '
                      'water marks' % (len(lead_scns), len(sim_scns), nrand, nmem))
     c.cov['warmup_classes'] = {k: sum(1 for s in allwu if wu_class(s[0]) == k) for k in ('healthy', 'degenerate', 'cold-below-one', 'never-cold')}
+    c.cov['control_behaviour'] = dict(warmup_reject=sum(1 for s in allwu if not s[0].get('cb')), warmup_throttling=sum(1 for s in allwu if s[0].get('cb')),
+                                      warmup_throttling_saturated_past_warmup=sum(
+                                          1 for s in allwu if s[0].get('cb') and s[0].get('q', 0) > 0 and wu_class(s[0]) == 'healthy'
+                                          and max_pace_run(s) >= 2 * s[0]['p'] + 4),
+                                      mem_reject=sum(1 for s in mem_scns if not s[0].get('cb')), mem_throttling=sum(1 for s in mem_scns if s[0].get('cb')))
     c.sample(lead_scns[0][:8])
     c.sample(rand_scns[-1][:10])
     c.sample(mem_scns[0][:8])
@@ -500,7 +608,11 @@ def check(c, tier, replay):
                       'DRIFT (a decision that differs from the transcription while staying inside the envelope) is reported in '
                       'conformance_mismatches and is not a verdict',
                       'TLC model checking is exhaustive for the configuration sets of WarmUp_MC (histories of any length: saturating counters) '
-                      'and the grid of MemAdaptive_MC']
+                      'and the grid of MemAdaptive_MC',
+                      'throttling rules: single-token requests; the admitted rate is read as pacing (admissions per aligned second by admission '
+                      'time, spacing owed after the last admission, recorded in microseconds with 2 us slack); "sustained demand" = consecutive '
+                      'requests never further apart than MaxQueueingTimeMs (no due admission is missed), so rules with MaxQueueingTimeMs = 0 '
+                      'are judged for E1, E2, E4 only; in the model a saturated second admits floor or ceil of the effective threshold']
 
 
 main('C11', check)
